@@ -1079,6 +1079,11 @@ func embeds(st *types.Struct, owner string, depth int) bool {
 // assumeObjInv assumes the declared type invariants of the object v points to.
 func (fr *Frame) assumeObjInv(st *State, v Val, t types.Type, cond Term) {
 	ex := fr.ex
+	// only objects that existed when the function was entered: objects created
+	// since then may still be under construction
+	if ex.entry != nil && len(v.L) > 0 {
+		cond = And(cond, Le(v.L[0], ex.entry.alloc))
+	}
 	for _, it := range ex.P.invTargets(ex, v, t) {
 		env := ex.newEnv(st, st, fr)
 		env.pkg = it.tn[:strings.Index(it.tn, ".")]
